@@ -99,6 +99,8 @@ trait AnySession {
 
 struct Sess<S: ShapeOps> {
     slots: HashMap<usize, Slot<S>>,
+    /// running target for `updchain` (set by every `upd` to its input target)
+    chain: Option<S::Target>,
 }
 
 fn show_vals(vs: &[V]) -> String {
@@ -192,8 +194,21 @@ impl<S: ShapeOps> AnySession for Sess<S> {
                 self.slots.insert(w[2].parse().unwrap(), c);
                 "ok".into()
             }
+            "updchain" => {
+                let t = fb(w[2]);
+                let mut vs = match self.chain.take() { Some(v) => v, None => return "no-chain".into() };
+                match self.slots.get(&w[1].parse().unwrap()) {
+                    Some(Slot::Tl(tl)) => tl.update(&mut vs, t),
+                    Some(Slot::Mg(m)) => m.update(&mut vs, t),
+                    _ => return "bad-slot".into(),
+                }
+                let out = show_vals(&S::to_vals(&vs));
+                self.chain = Some(vs);
+                out
+            }
             "upd" => {
                 let mut vs = S::from_vals(&parse_vals::<S>(&w[3..]));
+                self.chain = Some(vs.clone());
                 let t = fb(w[2]);
                 match self.slots.get(&w[1].parse().unwrap()) {
                     Some(Slot::Tl(tl)) => tl.update(&mut vs, t),
@@ -333,9 +348,9 @@ pub struct Runner {
 impl Runner {
     pub fn new() -> Self {
         let mut sessions: HashMap<String, Box<dyn AnySession>> = HashMap::new();
-        sessions.insert("S8".into(), Box::new(Sess::<S8Ops> { slots: HashMap::new() }));
-        sessions.insert("Q5".into(), Box::new(Sess::<Q5Ops> { slots: HashMap::new() }));
-        sessions.insert("R4".into(), Box::new(Sess::<R4Ops> { slots: HashMap::new() }));
+        sessions.insert("S8".into(), Box::new(Sess::<S8Ops> { slots: HashMap::new(), chain: None }));
+        sessions.insert("Q5".into(), Box::new(Sess::<Q5Ops> { slots: HashMap::new(), chain: None }));
+        sessions.insert("R4".into(), Box::new(Sess::<R4Ops> { slots: HashMap::new(), chain: None }));
         Runner { sessions, slot_shape: HashMap::new() }
     }
 
